@@ -76,17 +76,7 @@ Unspec4 == [ns |-> "unspecified", t |-> "unspecified", cns |-> "unspecified", ct
 (*   y   : what the chain BEFORE its last self-escaping directive wrote    *)
 (*         there (only used when that prefix changes the text)             *)
 (***************************************************************************)
-TruncResults(s, d) ==
-  {t \in ({s} \cup {SubSeq(s, 1, k) \o e : k \in 0..(Len(s) - 1), e \in {"", "..."}}) :
-     TruncateOK(s, TruncN(d), TruncEll(d), t)}
-RECURSIVE TruncChainResults(_, _, _)
-TruncChainResults(chain, ss, i) ==
-  IF i > Len(chain) THEN ss
-  ELSE IF chain[i].name \in Transparent THEN TruncChainResults(chain, ss, i + 1)
-  ELSE TruncChainResults(chain, UNION {TruncResults(s, chain[i]) : s \in ss}, i + 1)
-
 OnlyTransparent(chain) == \A i \in DOMAIN chain : chain[i].name \in Transparent
-HasTruncate(chain) == \E i \in DOMAIN chain : chain[i].name = "truncate"
 
 TraceVerdict(r) ==
   LET a == [ns |-> r.ns, t |-> r.t, cns |-> r.cns, ct |-> r.ct]
@@ -102,8 +92,9 @@ TraceVerdict(r) ==
     ELSE IF Depth(r.site, a) = 2 /\ ~NoRawSpecial(r.out) THEN "bad:raw-special"
     ELSE CASE cls = "ESC" ->
                 IF ~NoRawSpecial(p) THEN "bad:raw-special"
-                ELSE IF HasTruncate(chain) /\ ~AllKnown(s, 1) THEN "ok"        \* byte length unknown to the model
-                ELSE IF UnescapeHtml(p) \in TruncChainResults(chain, {s}, 1) THEN "ok"
+                \* the text node decodes to the value; with a truncate in the chain, to what
+                \* the chain wrote with escaping off (its contract is property C16's)
+                ELSE IF UnescapeHtml(p) = (IF OnlyTransparent(chain) THEN s ELSE r.off) THEN "ok"
                 ELSE "bad:decodes-wrong"
            [] cls = "HTML" ->
                 LET k == LastHtml(chain)
